@@ -112,7 +112,10 @@ def handle : Handler := fun op inp =>
       let files ← asList parseFile (← field inp "files")
       let rows ← asNat (← field inp "rows")
       let nProc ← asNat (← field inp "nProc")
-      return jExcept jBuffer (precompute nC g tbl files rows nProc)
+      let gl ← asOption (asList natList) (fieldD inp "geneLists" Json.null)
+      match gl with
+      | none => return jExcept jBuffer (precompute nC g tbl files rows nProc)
+      | some gl => return jExcept jBuffer (precomputeChecked gl nC g tbl files rows nProc)
   | "stats.worksplit" => some do
       -- files given by their sizes only: cells are dummies
       let sizes ← asList (asPair asNat asNat) (← field inp "sizes")
